@@ -929,7 +929,8 @@ package fsm
 //@   assumed
 //@   params r, order, data
 //@   results err
-//@   modifies *asType(data, *uint64), r.rest
+//@   ensures world.eofseen == (err == io.EOF)      // (volatile) the stream ended cleanly, between two length-prefixed chunks
+//@   modifies *asType(data, *uint64), r.rest, world.eofseen
 // Ingest links the SST files into the (new, private) DB: its view changes, bookkeeping values keep their 8-byte form
 // Ingest links the files and makes the link and the manifest edit durable, but relies on the caller to
 // have fsynced the files' CONTENT; afterwards the DB is "filled"
@@ -969,6 +970,7 @@ package fsm
 //@   ensures [C08.install.recoverable] recoverable(s.fsm.fs, s.fsm.dirname)
 //@   ensures [C08.install.swap] s.fsm.pebble.v != old(s.fsm.pebble.v) ==> s.fsm.fs.dCur[s.fsm.dirname] == s.fsm.fs.vCur[s.fsm.dirname] && s.fsm.fs.opened[pjoin(s.fsm.dirname, s.fsm.fs.dCur[s.fsm.dirname])]
 //@   modifies s.fsm.fs.vHas, s.fsm.fs.dHas, s.fsm.fs.dCur, s.fsm.fs.vCur, s.fsm.fs.updName, s.fsm.fs.opened, s.fsm.pebble.v, r.rest, world.syncedPath, family(G_any_vP), family(G_any_vV)
+//@   before pebble.(*DB).Ingest assert [C08.stream.complete+C04] world.eofseen      // the received files are installed only after a CLEAN end of the stream: a stream cut inside a length prefix is an error, never a shorter snapshot
 //@   loop 0 invariant db != nil && fresh(db) && db.lazyReaders == 0 && s.fsm == old(s.fsm) && (isNilSlice(files) || fresh(files)) && (isNilSlice(buff) || fresh(buff))
 //@   loop 0 invariant s.fsm.fs.opened[dbdir] && s.fsm.fs.vHas[dbdir] && s.fsm.pebble.v == old(s.fsm.pebble.v)
 //@   loop 0 invariant forall j int :: 0 <= j && j < len(files) ==> world.syncedPath[files[j]]
